@@ -1132,6 +1132,7 @@ MYTH_CTX_CALLBACK void myth_entry_point_1(void *arg1,void *arg2,void *arg3)
   t0 = myth_get_rdtsc();
 #endif
   free_myth_thread_struct_stack(env,this_thread);
+  MYTH_VERIF_POINT(mythv_p_desc_field, this_thread->detached);
   if (this_thread->detached){
     //The thread is detached. Release resource
 #if MYTH_ENTRY_POINT_DEBUG
@@ -1182,6 +1183,7 @@ MYTH_CTX_CALLBACK void myth_entry_point_2(void *arg1,void *arg2,void *arg3)
   t0=myth_get_rdtsc();
 #endif
   free_myth_thread_struct_stack(env,this_thread);
+  MYTH_VERIF_POINT(mythv_p_desc_field, this_thread->detached);
   if (this_thread->detached){
     //The thread is detached. Release resource
 #if MYTH_ENTRY_POINT_DEBUG
@@ -1240,6 +1242,7 @@ static inline void myth_entry_point_cleanup(myth_thread_t this_thread) {
 #endif
   this_thread_v = this_thread;
   myth_spin_lock_body(&this_thread->lock);
+  MYTH_VERIF_POINT(mythv_p_desc_field, this_thread_v->join_thread);
   myth_thread_t wait_thread = this_thread_v->join_thread;
   //Execute a thread waiting for current thread
   if (wait_thread){
